@@ -768,9 +768,12 @@ impl Inner {
                 }
                 Resp::None
             }
-            Step::CoreWorker { key, shape } => {
+            Step::CoreWorker { key, shape, group } => {
                 if !self.core_workers.contains_key(key) {
-                    let cfg = worker_configuration(shape, 1000 + *key, None);
+                    let mut cfg = worker_configuration(shape, 1000 + *key, None);
+                    if *group > 0 {
+                        cfg.group = format!("g{group}");
+                    }
                     let (id, rx) = self.server.register_worker(cfg, tako::verif::now());
                     self.core_workers.insert(*key, (id, rx));
                 }
